@@ -30,8 +30,8 @@ META = {
             "independent structural parse.",
     "note": "Trusted: Lean kernel + propext/Classical.choice/Quot.sound; the harness and the Python structural parser; the C compiler. "
             "The index hash (SHA-256 of the size pairs in C) is modelled as comparing the lists (collision-freeness assumed, stated). "
-            "Hypotheses of the locality/prefix theorems on the abstract payload decoder: PayloadLocal, PayloadBounded (shown satisfiable; for "
-            "the real LZMA2 chain they are exercised by the correspondence, not proved). Not theorems: rejection of a flip in a Block Header "
+            "Hypotheses of the locality/prefix theorems on the abstract payload decoder: PayloadLocal, PayloadBounded; both are PROVED for the "
+            "concrete raw LZMA1/LZMA2 chain model (Lemmas/LzmaCausal*.lean, XzStd.lean), so the *_std theorems have no hypothesis left. Not theorems: rejection of a flip in a Block Header "
             "Size byte or the Index Indicator (would need a CRC32 coincidence to be excluded), flips in later Streams / Stream Padding under "
             "CONCATENATED, completeness of the grammar, whole-file form of the payload-damage/collision statement. Multi-byte damage is covered only up to a Check collision. The threaded decoder is "
             "covered by the direct oracle only. Known finding: .lz trailing-data rule (findings/C05-lz-trailing-data-rule.json).",
@@ -303,6 +303,92 @@ def plan_crafted(ctx, files, fi, f):
     return [(fi, ops[k], descs[k]) for k in (0, 1) if ops[k]]
 
 
+STREAM_APIS_BY_FMT = {"xz": [("sd", 8), ("sd", 0), ("mt2", 8), ("mt4", 0), ("auto", 8)],
+                      "lzma": [("alone", 0), ("auto", 0)],
+                      "lz": [("lzip", 8), ("lzip", 0), ("auto", 8)]}
+
+
+def plan_padding(ctx, files, fi, f):
+    """Damaged Stream Padding (lengths 1,2,3,5,6,7, a non-zero byte inside; at EOF and between Streams), decoded with
+    LZMA_CONCATENATED by the single- and multi-threaded decoders, whole and in ALL 2-piece and 3-piece splits whose cut
+    points lie in or next to the padding (a cut at the very end = an empty LZMA_FINISH piece). Every run must reject."""
+    tasks = []
+    for group in ([("sd", 8), ("auto", 8)], [("mt2", 8), ("mt4", 8)]):
+        ops, descs = [], []
+        for (what, data, r0, r1) in L.padding_variants(f):
+            g = dict(f)
+            g["data"] = data
+            g["name"] = f["name"] + " [" + what + "]"
+            g["crafted"] = (what, "spad")
+            files.append(g)
+            gi = len(files) - 1
+            n = len(data)
+            offs = sorted({o for o in range(r0 - 2, r1 + 3) if 0 < o <= n})
+            cuts = [(a,) for a in offs] + [(a, b) for i, a in enumerate(offs) for b in offs[i + 1:]]
+            ops.append("base " + vlib.hexs(data))
+            descs.append((group[0][0], 0, "b", 0, None, gi))
+            for (a, fl) in group:
+                ops.append("slice 0")
+                descs.append((a, fl, "s", 0, None, gi))
+                ops.append("one %s %d w" % (a, fl))
+                descs.append((a, fl, "w", 0, None, gi, "0"))
+                for c in cuts:
+                    sp = "c " + " ".join(str(x) for x in c)
+                    ops.append("slice " + sp)
+                    descs.append((a, fl, "s", 0, None, gi))
+                    ops.append("one %s %d w" % (a, fl))
+                    descs.append((a, fl, "w", 0, None, gi, sp))
+            ctx.count("padding-variants")
+        ops.append("slice 0")
+        descs.append((group[0][0], 0, "s", 0, None, fi))
+        if ops:
+            tasks.append((fi, ops, descs))
+    return tasks
+
+
+def plan_splits(ctx, fi, f):
+    """The undamaged file under systematic input slicing: every 2-piece split inside the non-payload fields (headers,
+    paddings, Index, footers; at most 160 offsets), 1-, 2- and 3-byte pieces, and seeded random slicings, for every
+    lzma_stream decoder of the format. The verdict (and for accepted files output and length) must be that of the
+    whole-buffer run."""
+    n = len(f["data"])
+    offs = set()
+    for (a, b, nme) in f["segs"]:
+        if not nme.endswith(".data"):
+            offs.update(range(a, b + 1))
+    offs = sorted(o for o in offs if 0 < o <= n)
+    if len(offs) > 160:
+        offs = sorted(ctx.rng.sample(offs, 160))
+    specs = ["k 1", "k 2", "k 3"] + ["r %d" % ctx.rng.randrange(1 << 30) for _ in range(4)] + ["c %d" % o for o in offs]
+    pads = [(a, b) for (a, b, nme) in f["segs"] if nme == "spad"]
+    for (a, b) in pads:
+        inner = list(range(a, b + 1))
+        specs += ["c %d %d" % (x, y) for i, x in enumerate(inner) for y in inner[i + 1:]]
+    tasks = []
+    for (api, fl) in STREAM_APIS_BY_FMT[f["fmt"]]:
+        ops, descs = ["slice 0", "one %s %d w" % (api, fl)], [(api, fl, "s", 0, None, fi), (api, fl, "w", 0, None, fi, "0")]
+        for sp in specs:
+            ops += ["slice " + sp, "one %s %d w" % (api, fl)]
+            descs += [(api, fl, "s", 0, None, fi), (api, fl, "w", 0, None, fi, sp)]
+        ops.append("slice 0")
+        descs.append((api, fl, "s", 0, None, fi))
+        tasks.append((fi, ops, descs))
+    return tasks
+
+
+def same_verdict(api, ref, got, bcj=False):
+    """Is the result of a sliced run the verdict of the whole-buffer run? Status and notices always; for accepted input
+    also consumed count and output."""
+    a, b = parse_res(ref), parse_res(got)
+    if a is None or b is None:
+        return False
+    if a["ret"] != b["ret"] or a["notices"] != b["notices"]:
+        return False
+    if L.is_success(api, a["ret"]):
+        return (a["consumed"], a["outlen"], a["lcp"], a["crc"]) == (b["consumed"], b["outlen"], b["lcp"], b["crc"])
+    return True
+
+
 # ------------------------------------------------------------------------------------------------------------------
 # the direct oracle
 # ------------------------------------------------------------------------------------------------------------------
@@ -433,7 +519,7 @@ def run(ctx):
         "index hash: SHA-256 of the (unpadded, uncompressed) pairs is modelled as the list of pairs (no collision among compared lists)",
         "the harness feeds the same damaged bytes to the C code and to the model driver; the Python structural parser assigns flipped bits to fields",
         "the output buffer (48 MiB) is never the limiting factor (cases where it fills up are counted as 'outfull' and not judged)",
-        "locality theorems (prefix_free, index/footer/padding/check flips) assume PayloadLocal and PayloadBounded of the abstract payload decoder",
+        "locality theorems (prefix_free, index/footer/padding/check flips) are stated for an abstract payload decoder with PayloadLocal and PayloadBounded; both are proved for XzEnv.stdEnv (payload_local_std, payload_bounded_std), giving the hypothesis-free *_std corollaries",
         "the .lzma/.lz/auto models are those of C16 (Model/Alone.lean, Lzip.lean, Auto.lean); a disagreement there is reported as a C05 correspondence break",
     ]
     # P
